@@ -4,7 +4,8 @@ A case is one wrapped function plus everything observed about it:
   {'args': [1,2,3], 'defaults': [12,13], 'varargs': 7|None, 'kwonly': [4,5], 'kwdefaults': [[5,25]],
    'varkw': 9|None, 'ann': [[1,31]], 'ret': 39|None, 'async': 0|1, 'doc': 5|None, 'module': 2|None,
    'injected': [2], 'expected': [[6, None], [8, 41]], 'opts': [inject_to_varkw, hide_wrapped],
-   'form': 0..3 (how injected/expected are spelled: list / str / dict / update_wrapper()),
+   'stack': n (the built function is wrapped again, plainly, n-1 more times; default 1),
+   'form': 0..5 (how injected/expected are spelled: list / str / dict / update_wrapper() / tuple+list pairs / iterators),
    'calls': [[[101,102], [[4,110]]], ...]}
 A case with an 'ops' field instead of injected/expected is a FunctionBuilder history:
 from_func(f), then ['r', x] = remove_arg(x), ['a', z, d] = add_arg(z[, d]), ['k', z, d] = add_arg(z[, d], kwonly=True),
@@ -30,16 +31,50 @@ class V:
         return 'V(%d)' % self.n
 
 
+# value ids with a special meaning: falsy / equal-but-distinct / mutable Python objects as defaults and arguments
+class AlwaysEqual:
+    """compares equal to everything (a default must still be recognised by identity)"""
+    __hash__ = object.__hash__
+
+    def __eq__(self, other):
+        return True
+
+    def __ne__(self, other):
+        return False
+
+
+class NoTruth:
+    """has no truth value"""
+
+    def __bool__(self):
+        raise ValueError('no truth value')
+
+
+SPECIAL_VALUES = {210: AlwaysEqual, 211: NoTruth, 200: lambda: None, 201: lambda: 0, 202: lambda: False, 203: lambda: '', 204: lambda: (),
+                  205: lambda: 0.0, 206: lambda: [], 207: lambda: {}, 208: lambda: 1, 209: lambda: True}
+
+
 class Vals(dict):
+    """value table of one case: id -> object; `rev` maps the identity of every object back to its id"""
+
+    def __init__(self):
+        dict.__init__(self)
+        self.rev = {}
+
     def __missing__(self, n):
-        v = self[n] = V(n)
+        v = self[n] = SPECIAL_VALUES[n]() if n in SPECIAL_VALUES else V(n)
+        self.rev[id(v)] = n
         return v
 
 
+CURRENT = [Vals()]
+
+
 # parameter ids with a special spelling: the names the builder itself uses in the exec namespace
-SPECIAL = {90: '_call', 91: '_func', 92: '__call', 93: 'fn'}
+SPECIAL = {90: '_call', 91: '_func', 92: '__call', 93: 'fn', 94: 'self', 95: 'args', 96: 'kwargs', 97: '\u00e9',
+           98: 'name', 99: 'body', 89: '_'}
 SPECIAL_REV = {v: k for k, v in SPECIAL.items()}
-FNAMES = {0: 'fn', 1: '_call', 2: '_func'}
+FNAMES = {0: 'fn', 1: '_call', 2: '_func', 3: '<lambda>'}
 
 
 def pn(n):
@@ -56,9 +91,12 @@ def name_id(s):
 
 
 def vnum(x):
-    """number of a value for the canonical text; anything else gets a marker that never matches"""
-    if isinstance(x, V):
-        return x.n
+    """number of a value for the canonical text, by IDENTITY (a copy of a default is not that default);
+    anything else gets a marker that never matches"""
+    vals = CURRENT[0]
+    n = vals.rev.get(id(x))
+    if n is not None and vals.get(n) is x:
+        return n
     return '?%s' % type(x).__name__
 
 
@@ -93,6 +131,8 @@ def source_of(case):
         parts.append(named(k, kwd.get(k)))
     if case['varkw'] is not None:
         parts.append('**' + named(case['varkw']))
+    if case.get('fname', 0) == 3:      # a lambda: no annotations, no docstring, not async
+        return 'fn = lambda %s: dict(locals())\n' % ', '.join(parts)
     head = '%sdef %s(%s)%s:\n' % ('async ' if case['async'] else '', FNAMES[case.get('fname', 0)], ', '.join(parts),
                                   ' -> A[%d]' % case['ret'] if case['ret'] is not None else '')
     body = ''
@@ -125,9 +165,9 @@ def dump_locals(d, case):
         if n is None:
             out.setdefault('odd', []).append(str(k))
             continue
-        if isinstance(v, tuple):
+        if n == case['varargs'] and isinstance(v, tuple):
             out['star'] = [n, [vnum(x) for x in v]]
-        elif isinstance(v, dict):
+        elif n == case['varkw'] and isinstance(v, dict):
             out['dstar'] = [n, [[str(kk), vnum(x)] for kk, x in v.items()]]
         else:
             out['named'].append([n, vnum(v)])
@@ -152,14 +192,17 @@ class C13(Property):
     THOROUGH_BUDGET_S = 600
     RULE = ('a case is one function signature (positional-or-keyword parameters with a suffix of defaults, '
             '*args, keyword-only parameters with/without defaults, **kw, annotations, return annotation, '
-            'sync/async, docstring or none, module or none), an injected list, an expected list, the options, '
-            'and a list of call shapes (k positional values x a subset of keyword names incl. unknown ones); '
-            'every call is made on the wrapped function directly and through wraps(). Exhaustive: all '
-            'signatures with <=3 positional / <=2 keyword-only (thorough <=4 / <=2) x {plain, every single '
-            'injected name, expected with/without default, clashes} x all call shapes; random: up to 6 '
-            'positional / 4 keyword-only, multi-step injected+expected. Non-trivial = the builder produced a '
-            'function and the call list contains both an accepted and a rejected call, or injected/expected '
-            'is non-empty; distinct = distinct case.')
+            'sync/async, docstring or none, module or none) plus EITHER an injected list, an expected list, the '
+            'options and the spelling of the request (list / str / dict / update_wrapper) OR a history of '
+            'FunctionBuilder.remove_arg / add_arg(kwonly) calls, and a list of call shapes (k positional values x '
+            'a subset of keyword names incl. unknown ones); every call is made on the wrapped function directly '
+            'and through the built function. Exhaustive: all signatures with <=3 positional / <=2 keyword-only '
+            '(thorough <=4 / <=2) x {plain, every single injected name, missing name, expected with/without '
+            'default, clashes, inject+expect} x all call shapes; all builder histories of <=2 ops over a 9-12 '
+            'letter alphabet on signatures with <=2 positional; parameters/functions spelled _call, _func, __call; '
+            'random: up to 6 positional / 4 keyword-only, multi-step injected+expected, histories of <=6 ops. '
+            'Non-trivial = the builder produced a function and either the call list contains both an accepted '
+            'and a rejected call or the signature was modified; distinct = distinct case.')
     ASSUMPTIONS = ['no positional-only parameters; the wrapped object is a plain function (no partial / '
                    'classmethod / builtin); names are abstract in the model - parameters / functions spelled like '
                    'the builder\'s own exec-namespace names (_call, _func) are exercised by the generators',
@@ -175,7 +218,7 @@ class C13(Property):
                 for va in (None, 7):
                     for kwonly, kwd in kwo_cfgs:
                         for vk in (None, 9):
-                            args = list(range(1, npos + 1))
+                            args = [1, 12, 3, 4][:npos]       # p1 is a prefix of p12 / p14 / p15
                             yield {'args': args, 'defaults': [10 + a for a in args[npos - ndef:]],
                                    'varargs': va, 'kwonly': list(kwonly), 'kwdefaults': [list(p) for p in kwd],
                                    'varkw': vk}
@@ -191,6 +234,9 @@ class C13(Property):
             ann = [[n, 30 + n] for n in names]
         else:
             ann = [[n, 30 + n] for j, n in enumerate(names) if (j + mode) % 2 == 0]
+        if (i // 32) % 2:     # falsy default values: None, '', 0 / False
+            sig = dict(sig, defaults=[[200, 203, 201, 210, 211][(j + i // 64) % 5] for j in range(len(sig['defaults']))],
+                       kwdefaults=[[k, 202 if j % 2 else 200] for j, (k, _d) in enumerate(sig['kwdefaults'])])
         return dict(sig, ann=ann, ret=(39 if (i // 4) % 2 else None), doc=(5 if (i // 8) % 2 == 0 else None),
                     module=(2 if (i // 16) % 2 == 0 else None), **{'async': (i // 2) % 2})
 
@@ -213,6 +259,8 @@ class C13(Property):
         for n in sig['args'] + sig['kwonly']:
             yield [n], []
         yield [6], []                                   # missing name (varkw catches it, or MissingArgument)
+        if sig['args']:
+            yield [6, sig['args'][0]], []               # a missing name must not stop the later ones
         if sig['varargs'] is not None:
             yield [sig['varargs']], []                  # not an argument name
         yield [], [[6, None]]
@@ -231,25 +279,30 @@ class C13(Property):
     def cases(self, budget_s):
         rng = self.rng
         if self.thorough:
-            kwo_cfgs = [((), ()), ((14,), ()), ((14,), ((14, 24),)), ((14, 15), ()), ((14, 15), ((14, 24),)),
-                        ((14, 15), ((15, 25),)), ((14, 15), ((14, 24), (15, 25)))]
+            kwo_cfgs = [((), ()), ((14,), ()), ((14,), ((14, 24),)), ((15, 14), ()), ((15, 14), ((14, 24),)),
+                        ((15, 14), ((15, 25),)), ((15, 14), ((14, 24), (15, 25)))]
             maxpos = 4
         else:
-            kwo_cfgs = [((), ()), ((14,), ()), ((14,), ((14, 24),)), ((14, 15), ((15, 25),))]
+            kwo_cfgs = [((), ()), ((14,), ()), ((14,), ((14, 24),)), ((15, 14), ((15, 25),))]
             maxpos = 3
         i = rng.randrange(64)
         for sig in self.base_sigs(maxpos, kwo_cfgs):
             for inj, exp in self.plans(sig):
-                i += 1
-                c = self.decorate(sig, i)
-                c.update(injected=inj, expected=exp, opts=[1, 0], form=i % 4)
-                if inj == [6] and i % 3 == 0:
-                    c['opts'] = [0, 0]
-                if not inj and not exp and i % 5 == 0:
-                    c['opts'] = [1, 1]
-                c['calls'] = self.call_shapes(sig, [z for z, _ in exp if z not in sig['args'] + sig['kwonly']],
-                                              [x for x in inj if x not in [z for z, _ in exp]])
-                yield c
+                calls = self.call_shapes(sig, [z for z, _ in exp if z not in sig['args'] + sig['kwonly']],
+                                         [x for x in inj if x not in [z for z, _ in exp]])
+                for asy in (0, 1):
+                    i += 1
+                    c = self.decorate(sig, i)
+                    c.update(injected=inj, expected=exp, opts=[1, 0], form=i % 6)
+                    c['async'] = asy
+                    if 6 in inj and i % 3 == 0:
+                        c['opts'] = [0, 0]
+                    if not inj and not exp and i % 5 == 0:
+                        c['opts'] = [1, 1]
+                    if i % 3 == 1:
+                        c['stack'] = 2 + (i // 3) % 2       # decorators stacked 2 or 3 deep
+                    c['calls'] = calls
+                    yield c
         for c in self.hygiene_cases():
             yield c
         for c in self.history_cases(rng, 2 if self.thorough else 1):
@@ -262,7 +315,7 @@ class C13(Property):
 
     def history_cases(self, rng, maxkwo):
         """FunctionBuilder histories: every op sequence of length <= 2 over a small alphabet, small signatures"""
-        kwo_cfgs = [((), ()), ((14,), ()), ((14,), ((14, 24),)), ((14, 15), ((15, 25),))][:2 + maxkwo]
+        kwo_cfgs = [((), ()), ((14,), ()), ((14,), ((14, 24),)), ((15, 14), ((15, 25),))][:2 + maxkwo]
         i = rng.randrange(64)
         for sig in self.base_sigs(2, kwo_cfgs):
             alpha = [['r', n] for n in sig['args'] + sig['kwonly']] + [['r', 6]]
@@ -294,7 +347,7 @@ class C13(Property):
         c = self.random_case(rng, big)
         present = c['args'] + c['kwonly']
         fresh = [n for n in range(1, 34) if n not in present and n not in (c['varargs'], c['varkw'])][:5]
-        for key in ('injected', 'expected', 'opts', 'form', 'fname'):
+        for key in ('injected', 'expected', 'opts', 'form', 'fname', 'stack'):
             c.pop(key, None)
         ops = []
         for _ in range(rng.randint(0, 6)):
@@ -321,24 +374,26 @@ class C13(Property):
         ]
         i = 0
         for sig in sigs:
-            for fname in (0, 1, 2):
-                for inj, exp in ([], []), ([sig['args'][0]], []), ([], [[6, None]]), ([], [[90, 45]]):
+            for fname in (0, 1, 2, 3):
+                for inj, exp in ([], []), ([sig['args'][0]], []), ([], [[6, None]]), ([], [[90, 45]]), ([], [[6, 200]]):
                     i += 1
                     c = self.decorate(sig, i)
                     c.update(injected=inj, expected=exp, opts=[1, 0], form=0, fname=fname)
+                    if fname == 3:
+                        c.update(ann=[], ret=None, doc=None, **{'async': 0})
                     c['calls'] = self.call_shapes(sig, [z for z, _ in exp if z not in sig['args'] + sig['kwonly']],
                                                   inj)
                     yield c
 
     def deep_cases(self, budget_s):
         rng = self.rng
-        kwo_cfgs = [((), ()), ((14,), ()), ((14,), ((14, 24),)), ((14, 15), ((15, 25),)), ((14, 15), ((14, 24),))]
+        kwo_cfgs = [((), ()), ((14,), ()), ((14,), ((14, 24),)), ((15, 14), ((15, 25),)), ((15, 14), ((14, 24),))]
         i = 0
         for sig in self.base_sigs(3, kwo_cfgs):
             for inj, exp in self.plans(sig):
                 i += 1
                 c = self.decorate(sig, i)
-                c.update(injected=inj, expected=exp, opts=[1, 0], form=i % 4)
+                c.update(injected=inj, expected=exp, opts=[1, 0], form=i % 6)
                 c['calls'] = self.call_shapes(sig, [z for z, _ in exp if z not in sig['args'] + sig['kwonly']],
                                               [x for x in inj if x not in [z for z, _ in exp]])
                 yield c
@@ -351,7 +406,7 @@ class C13(Property):
         nkwo = rng.randint(0, 4 if big else 2)
         pool = list(range(1, 30))
         if rng.random() < 0.1:
-            pool += [90, 91, 92, 93]
+            pool += [89, 90, 91, 92, 93, 94, 95, 96, 97, 98, 99]
         rng.shuffle(pool)
         args = pool[:npos]
         kwonly = pool[npos:npos + nkwo]
@@ -361,6 +416,10 @@ class C13(Property):
         ndef = rng.randint(0, npos)
         sig = {'args': args, 'defaults': [40 + a for a in args[npos - ndef:]], 'varargs': va, 'kwonly': kwonly,
                'kwdefaults': [[k, 70 + k] for k in kwonly if rng.random() < 0.5], 'varkw': vk}
+        if rng.random() < 0.25:     # falsy / equal-but-distinct / mutable / shared default values
+            special = [rng.choice(range(200, 212)) for _ in range(3)]
+            sig['defaults'] = [rng.choice(special) if rng.random() < 0.7 else d for d in sig['defaults']]
+            sig['kwdefaults'] = [[k, rng.choice(special) if rng.random() < 0.7 else d] for k, d in sig['kwdefaults']]
         c = self.decorate(sig, rng.randrange(64))
         inj, exp = [], []
         r = rng.random()
@@ -382,8 +441,8 @@ class C13(Property):
                     z = rng.choice(args + kwonly)
                 else:
                     z = rng.choice([n for n in (va, vk) if n is not None] or fresh)
-                exp.append([z, rng.choice([None, None, 90 + z])])
-        c.update(injected=inj, expected=exp, form=rng.randrange(4), fname=(rng.randrange(3) if rng.random() < 0.05 else 0),
+                exp.append([z, rng.choice([None, None, 90 + z, rng.choice(range(200, 212))])])
+        c.update(injected=inj, expected=exp, form=rng.randrange(6), fname=(rng.randrange(4) if rng.random() < 0.08 else 0),
                  opts=[0 if rng.random() < 0.15 else 1, 1 if rng.random() < 0.15 else 0])
         # calls: mostly near-valid
         names = args + kwonly + [z for z, _ in exp] + fresh[:1]
@@ -395,7 +454,14 @@ class C13(Property):
             ks = [n for n in dict.fromkeys(names) if rng.random() < (0.5 if rng.random() < 0.7 else 0.15)]
             rng.shuffle(ks)
             calls.append([[100 + j for j in range(k)], [[n, 150 + n] for n in ks]])
+        if rng.random() < 0.2:      # falsy / special argument values
+            calls = [[[rng.choice(range(200, 212)) if rng.random() < 0.5 else v for v in pos],
+                      [[n, rng.choice(range(200, 212)) if rng.random() < 0.5 else v] for n, v in kws]] for pos, kws in calls]
         c['calls'] = calls
+        if c['fname'] == 3:         # a lambda
+            c.update(ann=[], ret=None, doc=None, **{'async': 0})
+        if rng.random() < 0.25:
+            c['stack'] = rng.choice([2, 2, 3, 4])
         return c
 
     # ------------------------------------------------------------------ model line
@@ -420,7 +486,7 @@ class C13(Property):
         toks = [nl(case['args']), nl(case['defaults']), on(case['varargs']), nl(case['kwonly']),
                 prs(case['kwdefaults']), on(case['varkw']), prs(case['ann']), on(case['ret']),
                 str(case['async']), on(case['doc']), on(case['module']), nl(case['injected']),
-                prs(case['expected']), '%d%d' % tuple(case['opts'])]
+                prs(case['expected']), '%d%d' % tuple(case['opts']) + ('%d' % case['stack'] if case.get('stack', 1) > 1 else '')]
         for pos, kws in case['calls']:
             toks.append('%s/%s' % (nl(pos), prs(kws)))
         return ' '.join(toks)
@@ -437,6 +503,8 @@ class C13(Property):
             inj_arg = inj[0]
         elif form == 2:
             inj_arg = tuple(inj)
+        elif form in (4, 5):
+            inj_arg = iter(inj)
         else:
             inj_arg = inj if (inj or form == 3) else None
         if form == 1 and len(exp) == 1 and exp[0][1] is None:
@@ -445,6 +513,10 @@ class C13(Property):
             exp_arg = {pn(z): vals[d] for z, d in exp}
         elif form == 3:
             exp_arg = [(pn(z), NO_DEFAULT if d is None else vals[d]) for z, d in exp]
+        elif form == 4:
+            exp_arg = tuple(pn(z) if d is None else [pn(z), vals[d]] for z, d in exp)
+        elif form == 5:
+            exp_arg = (pn(z) if d is None else (pn(z), vals[d]) for z, d in exp)
         else:
             exp_arg = [pn(z) if d is None else (pn(z), vals[d]) for z, d in exp] if exp else None
         return inj_arg, exp_arg
@@ -460,15 +532,20 @@ class C13(Property):
             return {'exc': exc_name(e), 'stage': 'case', 'msg': str(e)[:200]}
 
     def _impl(self, case, funcutils):
-        self._vals = vals = Vals()
+        self._vals = vals = CURRENT[0] = Vals()
         is_async = bool(case['async'])
         history = 'ops' in case
         plain = not history and not case['injected'] and not case['expected']
         ns = {'D': vals, 'A': vals}
         if case['module'] is not None:
             ns['__name__'] = 'mod%d' % case['module']
+        ns0 = dict(ns)
         exec(source_of(case), ns)
-        fn = ns[FNAMES[case.get('fname', 0)]]
+        fkey = 'fn' if case.get('fname', 0) == 3 else FNAMES[case.get('fname', 0)]
+        fn = ns[fkey]
+        ns_ref = dict(ns0)
+        exec(source_of(case), ns_ref)
+        fn_ref = ns_ref[fkey]          # pristine twin, never shown to boltons: the reference for direct calls
         rec = []
         if plain and is_async:
             async def wrapper(*a, **k):
@@ -484,8 +561,9 @@ class C13(Property):
         else:
             def wrapper(*a, **k):
                 rec.append((a, k))
-        obs = {'fsig': dump_sig(fn), 'fmeta': [fn.__name__, fn.__doc__, fn.__module__],
-               'fasync': int(inspect.iscoroutinefunction(fn))}
+        obs = {'fsig': dump_sig(fn_ref), 'fmeta': [fn_ref.__name__, fn_ref.__doc__, fn_ref.__module__],
+               'fasync': int(inspect.iscoroutinefunction(fn_ref))}
+        self._fn_ref = fn_ref
         if history:
             try:
                 fb = funcutils.FunctionBuilder.from_func(fn)
@@ -529,15 +607,36 @@ class C13(Property):
             obs['exc'] = exc_name(e)
             obs['stage'] = 'wraps'
             return obs
-        return self.observe(case, obs, fn, w, rec, plain, is_async)
+        levels = [fn, w]
+        try:
+            for _lvl in range(case.get('stack', 1) - 1):      # the built function is wrapped again, plainly
+                levels.append(funcutils.wraps(levels[-1], **kw)(self.passthrough(levels[-1], is_async)))
+        except Exception as e:
+            obs['exc'] = exc_name(e)
+            obs['stage'] = 'wraps'
+            return obs
+        self._levels = levels
+        return self.observe(case, obs, fn, levels[-1], rec, plain, is_async)
+
+    @staticmethod
+    def passthrough(inner, is_async):
+        if is_async:
+            async def wrapper(*a, **k):
+                return await inner(*a, **k)
+        else:
+            def wrapper(*a, **k):
+                return inner(*a, **k)
+        return wrapper
 
     def observe(self, case, obs, fn, w, rec, plain, is_async):
         vals = self._vals
         obs['wsig'] = dump_sig(w)
         obs['wmeta'] = [getattr(w, '__name__', None), getattr(w, '__doc__', None), getattr(w, '__module__', None)]
         obs['wasync'] = int(inspect.iscoroutinefunction(w))
+        levels = getattr(self, '_levels', None) if 'ops' not in case else None
         if hasattr(w, '__wrapped__'):
-            obs['wrapped'] = 1 if w.__wrapped__ is fn else '?'
+            below = [i + 1 for i, x in enumerate(levels or [fn]) if x is w.__wrapped__ and x is not w]
+            obs['wrapped'] = below[0] if below else '?'      # 1 = the wrapped function, k = the k-th function of a stack
         else:
             obs['wrapped'] = None
         src = getattr(w, '__source__', None)
@@ -549,7 +648,7 @@ class C13(Property):
             o = {}
             # the wrapped function called directly
             try:
-                o['direct'] = dump_locals(drive(fn(*a, **k), is_async), case)
+                o['direct'] = dump_locals(drive(self._fn_ref(*a, **k), is_async), case)
             except TypeError:
                 o['direct'] = 'TypeError'
             except Exception as e:
@@ -570,6 +669,7 @@ class C13(Property):
                 o['recv'] = None
             outs.append(o)
         obs['calls'] = outs
+        obs['fsig_after'] = dump_sig(fn)
         return obs
 
     # ------------------------------------------------------------------ canonical text (same as the driver's)
@@ -655,7 +755,7 @@ class C13(Property):
             return mm.group(0) if n is None else 'p%d' % n
 
         def txt(t):
-            return re.sub(r'[A-Za-z_]\w*', ident, ''.join(t.split())) if isinstance(t, str) else '?%r' % (t,)
+            return re.sub(r'[^\W\d]\w*', ident, ''.join(t.split())) if isinstance(t, str) else '?%r' % (t,)
         return 'N %s ; Q %s ; DD %s ; D %s ; I %s' % (
             ','.join(num(n) for n in fb['names']) or '-', ','.join(num(n) for n in fb['required']) or '-',
             ','.join('%s:%s' % (num(n), '-' if d is None else d) for n, d in fb['dd']), txt(fb['sig_str']),
@@ -689,7 +789,7 @@ class C13(Property):
         def ident(mm):
             n = name_id(mm.group(0))
             return mm.group(0) if n is None else 'p%d' % n
-        return re.sub(r'[A-Za-z_]\w*', ident, d_txt), re.sub(r'[A-Za-z_]\w*', ident, i_txt)
+        return re.sub(r'[^\W\d]\w*', ident, d_txt), re.sub(r'[^\W\d]\w*', ident, i_txt)
 
     # ------------------------------------------------------------------ oracle (independent of the model)
     def oracle(self, case, obs):
@@ -735,13 +835,16 @@ class C13(Property):
         ws = obs['wsig']
         if 'exc' in ws:
             return Failure('signature', 'inspect.signature(wrapper) raised %s' % ws['exc'])
+        if obs.get('fsig_after') != obs['fsig']:
+            return Failure('wrapped_changed', 'the wrapped function itself was modified: signature %r, was %r'
+                           % (obs.get('fsig_after'), obs['fsig']))
         wparams = ws['params']
         st['built'] = st.get('built', 0) + 1
         # --- metadata
         if obs['wmeta'] != obs['fmeta']:
             tag = 'doc' if obs['wmeta'][0] == obs['fmeta'][0] and obs['wmeta'][2] == obs['fmeta'][2] else 'meta'
             return Failure(tag, '(__name__, __doc__, __module__) = %r, wrapped function has %r' % (obs['wmeta'], obs['fmeta']))
-        if not hist and not case['opts'][1] and obs['wrapped'] != 1:   # (hide_wrapped=True / bare builder: no demand)
+        if not hist and not case['opts'][1] and obs['wrapped'] != case.get('stack', 1):   # (hide_wrapped=True / bare builder: no demand)
             return Failure('wrapped', '__wrapped__ does not point at the wrapped function')
         if obs['wasync'] != obs['fasync']:
             return Failure('async', 'iscoroutinefunction(wrapper)=%s, wrapped function %s' % (obs['wasync'], obs['fasync']))
@@ -749,7 +852,7 @@ class C13(Property):
             return Failure('signature', 'return annotation %r, wrapped function has %r' % (ws['ret'], obs['fsig']['ret']))
         # --- own signature
         if plain:
-            if wparams != fparams:
+            if self.canon(wparams) != self.canon(fparams):
                 return Failure('signature', 'signature %r differs from the wrapped function\'s %r' % (wparams, fparams))
         else:
             f = self.sig_delta(state, fparams, wparams)
@@ -786,6 +889,11 @@ class C13(Property):
         return None
 
     @staticmethod
+    def canon(params):
+        """inspect.Signature equality ignores the order of keyword-only parameters"""
+        return [p for p in params if p[1] != 'ko'] + sorted((p for p in params if p[1] == 'ko'), key=repr)
+
+    @staticmethod
     def same_bound(d, v):
         if not (isinstance(d, dict) and isinstance(v, dict) and 'named' in d and 'named' in v):
             return False
@@ -800,7 +908,7 @@ class C13(Property):
         added = {pn(n): v for n, v in state.items() if v != 'orig'}
         kept = [p for p in fparams if p[0] in kept_names or p[1] in ('va', 'vk')]
         wkept = [p for p in wparams if p[0] not in added]
-        if wkept != kept:
+        if self.canon(wkept) != self.canon(kept):
             return Failure('sig_delta', 'remaining parameters %r, expected %r (added %r)' % (wkept, kept, sorted(added)))
         wadded = [p for p in wparams if p[0] in added]
         if sorted(p[0] for p in wadded) != sorted(added):
@@ -857,6 +965,8 @@ class C13(Property):
             yield dict(case, **{'async': 0})
         if case.get('form'):
             yield dict(case, form=0)
+        if case.get('stack', 1) > 1:
+            yield dict(case, stack=case['stack'] - 1)
         if len(calls) == 1:
             pos, kws = calls[0]
             if pos:
